@@ -186,3 +186,56 @@ func RaceBody(reps int, seed int64) {
 	}
 	fmt.Printf("RACE-RUNS %d\n", runs)
 }
+
+// siblingEtypes: the same key bytes and the same usage used under two encryption types of equal key length, one
+// after the other in one process (17 then 19 then 17, 18 then 20 then 18, and the other way round): whatever one
+// etype derived or cached must not be found by the other. Every result is compared with the reference.
+func siblingEtypes(c *engine.Ctx) {
+	var n int64
+	for _, pair := range [][2]int32{{17, 19}, {19, 17}, {18, 20}, {20, 18}} {
+		key := keys(pair[0], 1, c.Seed+21)[0]
+		pt := []byte("sibling etypes share key bytes, not derived keys")
+		data := []byte("checksummed under two etypes")
+		for _, usage := range []uint32{2, 11, 1024} {
+			for step, et := range []int32{pair[0], pair[1], pair[0], pair[1]} {
+				p, _ := rcrypto.Get(et)
+				g := goET(et)
+				rec := map[string]interface{}{"etypes_in_order": []int32{pair[0], pair[1], pair[0], pair[1]}, "step": step, "etype": et, "usage": usage}
+				n++
+				_, ct, err := g.EncryptMessage(key, append([]byte{}, pt...), usage)
+				if err != nil {
+					c.Violate("siblings", fmt.Sprintf("sibling-etypes:encrypt-fails:et%d-after-et%d", et, other(pair, et)), map[string]interface{}{"err": err.Error()}, rec)
+					continue
+				}
+				if _, out, rerr := rcrypto.Decrypt(et, key, usage, ct); rerr != nil || !expectPlain(et, pt, out) {
+					c.Violate("siblings", fmt.Sprintf("sibling-etypes:reference-cannot-decrypt:et%d-after-et%d", et, other(pair, et)), map[string]interface{}{"err": fmt.Sprint(rerr)}, rec)
+				}
+				rct, _ := rcrypto.EncryptWithConfounder(et, key, usage, make([]byte, p.Conf), pt)
+				if out, derr := g.DecryptMessage(key, append([]byte{}, rct...), usage); derr != nil || !expectPlain(et, pt, out) {
+					c.Violate("siblings", fmt.Sprintf("sibling-etypes:rejects-reference-ciphertext:et%d-after-et%d", et, other(pair, et)), map[string]interface{}{"err": fmt.Sprint(derr)}, rec)
+				}
+				want, _ := rcrypto.Checksum(et, key, usage, data)
+				got, cerr := g.GetChecksumHash(key, append([]byte{}, data...), usage)
+				if cerr != nil || !bytes.Equal(got, want) {
+					c.Violate("siblings", fmt.Sprintf("sibling-etypes:checksum-differs:et%d-after-et%d", et, other(pair, et)), map[string]interface{}{"err": fmt.Sprint(cerr)}, rec)
+				} else if !g.VerifyChecksum(key, data, want, usage) {
+					c.Violate("siblings", fmt.Sprintf("sibling-etypes:true-checksum-rejected:et%d-after-et%d", et, other(pair, et)), nil, rec)
+				}
+				// the sibling's checksum (same key bytes, same usage, same data) must not verify here
+				sw, _ := rcrypto.Checksum(other(pair, et), key, usage, data)
+				if !bytes.Equal(sw, want) && g.VerifyChecksum(key, data, sw, usage) {
+					c.Violate("siblings", fmt.Sprintf("sibling-etypes:accepts-checksum-of-sibling:et%d", et), nil, rec)
+				}
+			}
+		}
+		c.Distinct(fmt.Sprintf("siblings/%d-%d", pair[0], pair[1]))
+	}
+	c.Add("evaluations", n)
+}
+
+func other(pair [2]int32, et int32) int32 {
+	if et == pair[0] {
+		return pair[1]
+	}
+	return pair[0]
+}
